@@ -46,11 +46,11 @@ func FormatOfExt(ext string) string {
 func ReaderConfigs(format string) []string {
 	switch format {
 	case "ssa":
-		return []string{"ssa", "ssa-opts"}
+		return []string{"ssa", "ssa-opts", "ssa-cb"}
 	case "stl":
 		return []string{"stl", "stl-ignoretc"}
 	case "ts":
-		return []string{"ts", "ts-auto"}
+		return []string{"ts", "ts-auto", "ts-pid", "ts-page"}
 	}
 	return []string{format}
 }
